@@ -14,6 +14,7 @@ from symex.harness import Case, Twin
 PROPERTY = "C15"
 FUNCTIONS = ["ibldsp.voltage.interpolate_bad_channels", "ibldsp.voltage.detect_bad_channels_cbin"]
 ASSUMPTIONS = [
+    "integer data: a small array subclass answers dtype int16 and stores values by truncation toward zero (NumPy's cast on assignment); the repaired channel must stay within the range of its contributors",
     "interpolation: geometry = excerpts (m consecutive sites; the bad set ranges over every subset of a window of `free` sites in the middle, the surrounding sites are good or outside-brain) of the real NP1 / NP2 / NP2.4 trace headers; labels free integers in {0,1,2,3} per site (np.where forks over the bad set); data free reals; weights are computed by the real code on concrete numbers per path, data stay symbolic (outputs are linear terms)",
     "mode over batches: detect_bad_channels is replaced by an arbitrary label per (channel, batch); scipy.stats.mode is modelled by its contract (most frequent value, smallest on ties)",
     "floats as exact reals for the data; weights are the doubles NumPy computes",
@@ -296,7 +297,8 @@ def twins(tier):
     return [
         Twin("bad_neighbours_contribute", m, "        weights[bad_channels] = 0\n", "        weights[i] = 0\n", ic),
         Twin("interpolates_outside_too", m, "np.logical_or(channel_labels == 1, channel_labels == 2)", "np.logical_or(channel_labels == 1, channel_labels >= 2)", ic),
-        Twin("all_rows_times_weights", m, "data[i, :] = gp.matmul(weights[imult], data[imult, :])", "data[i, :] = gp.matmul(weights[imult], data[imult, :]) * 2", ic),
+        Twin("all_rows_times_weights", m, "interp = gp.matmul(weights[imult], data[imult, :])", "interp = gp.matmul(weights[imult], data[imult, :]) * 2", ic),
+        Twin("integer_data_truncated", m, "            interp = gp.rint(interp)\n", "            pass\n", ["interp_np1_int16_bad3"]),
         Twin("no_neighbour_left_untouched", m, "        if imult.size == 0:\n            data[i, :] = 0\n            continue\n", "        if imult.size == 0:\n            continue\n", ["interp_np1_run_of_bad_m20", "interp_np1_run_of_bad_m24"]),
         Twin("not_normalised", m, "        weights = weights / gp.sum(weights)\n", "        weights = weights / 1.0\n", ic),
         Twin("mode_over_channels", m, "channel_flags, _ = scipy.stats.mode(channel_labels, axis=1)", "channel_flags, _ = scipy.stats.mode(channel_labels.T, axis=1)", ["mode_2ch_3batches"]),
@@ -307,6 +309,26 @@ def twins(tier):
 
 def replay(case, params, cex):
     m = cex["model"]
+    if "_int16_" in case:
+        mm, bad_at = params["m"], params["bad_at"]
+        vals = [int(str(m[f"d{i}"])) for i in range(mm)]
+        return f"""
+import ibldsp.voltage as v, neuropixel
+layout, m, bad_at = {params['layout']!r}, {mm}, {bad_at}
+h = neuropixel.trace_header(version=1) if layout == 'np1' else neuropixel.trace_header(version=2, nshank=1 if layout == 'np2' else 4)
+x, y = h['x'][:m].astype(float), h['y'][:m].astype(float)
+d = np.array({vals}, dtype=np.int16)[:, None] * np.ones((1, 3), dtype=np.int16)
+labels = np.zeros(m); labels[bad_at] = {m.get('kind', 1)}
+out = v.interpolate_bad_channels(d.copy(), labels, x, y)
+w = np.exp(-((np.abs(x - x[bad_at] + 1j * (y - y[bad_at])) / 20) ** 1.3)); w[bad_at] = 0; w[w < 0.005] = 0
+contrib = np.where(w > 0)[0]
+lo, hi = d[contrib, 0].min(), d[contrib, 0].max()
+print(out[:, 0], contrib, lo, hi)
+if out.dtype != np.int16 or not (lo <= out[bad_at, 0] <= hi): reproduced(f'int16 data: repaired channel {{bad_at}} = {{out[bad_at, 0]}} outside the range [{{lo}}, {{hi}}] of its contributing neighbours {{contrib.tolist()}}')
+keep = [i for i in range(m) if i != bad_at]
+if not np.array_equal(out[keep], d[keep]): reproduced('a channel that is not bad was modified')
+not_reproduced()
+"""
     if case.startswith("interp"):
         mm, ns = params["m"], 2
         from fractions import Fraction
